@@ -65,7 +65,7 @@ func contractsFor(specs *Specs, prop string) []*Contract {
 		}
 		if c.Trusted {
 			// only the structural clauses of a trusted contract are checkable (against the body's call instructions)
-			for _, nc := range c.NoCalls {
+			for _, nc := range append(append([]*Clause{}, c.NoCalls...), c.CtxFlow...) {
 				if hasProp(nc.Props, prop) {
 					out = append(out, c)
 					break
@@ -84,7 +84,7 @@ func contractsFor(specs *Specs, prop string) []*Contract {
 				rel = true
 			}
 		}
-		for _, nc := range append(append([]*Clause{}, c.NoCalls...), c.CallCounts...) {
+		for _, nc := range append(append(append([]*Clause{}, c.NoCalls...), c.CallCounts...), c.CtxFlow...) {
 			if hasProp(nc.Props, prop) {
 				rel = true
 			}
